@@ -1342,6 +1342,14 @@ def check_any_get(ctx, tu, R5):
                 elif recorded is not None:
                     wrong = recorded
             for nn in stmts:
+                # a bounded / prefix comparison of the two names: different types whose (mangled) names agree in the compared part are "the same"
+                if nn.get('kind') == 'CallExpr' and tu.sd(nn).get('q', '').split('::')[-1] in ('strncmp', 'memcmp', 'strncasecmp', 'strcasecmp') \
+                        and any(x.get('kind') == 'CXXTypeidExpr' or (x.get('kind') == 'CXXMemberCallExpr' and tu.sd(x).get('q', '').endswith('type_info::name'))
+                                for x in tu.walk(nn)):
+                    qn = tu.sd(nn).get('q', '').split('::')[-1]
+                    wrong = ('the type names are compared with %s (%s): two different types whose names agree in the compared part - e.g. nested '
+                             'containers or templates that differ only in a late argument - are taken for the same type, and get<T>() hands out a '
+                             'reference of the wrong type' % (qn, 'without case' if 'case' in qn else 'only a bounded prefix `%s`' % tu.show(tu.kids(nn)[-1])[:40]))
                 if nn.get('kind') == 'BinaryOperator' and nn.get('opcode') in ('==', '!=', '<', '>', '<=', '>='):
                     ks = tu.kids(nn)
                     a, b2 = tu.strip(ks[0], casts=True), tu.strip(ks[1], casts=True)
@@ -1857,6 +1865,155 @@ def check_holder_destructor(ctx, tu):
 # ============================================================================================
 #  R-C09-10: members of Any that mirror the holder are written wherever the holder is
 # ============================================================================================
+def _is_std_move(tu, n):
+    if n.get('kind') != 'CallExpr' or not tu.kids(n):
+        return False
+    if tu.sd(n).get('q') == 'std::move':
+        return True
+    c = tu.strip(tu.kids(n)[0], casts=True)
+    if c is None:
+        return False
+    if c.get('kind') == 'UnresolvedLookupExpr' and c.get('name') == 'move':
+        return True
+    return c.get('kind') == 'DeclRefExpr' and c.get('referencedDecl', {}).get('name') == 'move'
+
+
+def forwarding_sites(tu, fns):
+    """(function, parameter name, verdict, node) for every deduced `U &&` (forwarding) parameter of the function templates given:
+    'moved' if the body applies std::move to it (an lvalue argument is then moved from), 'ok' otherwise"""
+    out = []
+    for f in fns:
+        body = tu.body(f)
+        if not f.get('dep') or body is None:
+            continue
+        # a `P &&` parameter is a forwarding reference only if P is a template parameter of the function template itself (for a
+        # parameter of the enclosing class template `T &&` is an ordinary rvalue reference, and std::move is what it needs)
+        fnode = tu.node(f['id'])
+        ftd = tu.par(fnode) if fnode is not None else None
+        own = set()
+        if ftd is not None and ftd.get('kind') == 'FunctionTemplateDecl':
+            for k in tu.kids(ftd):
+                if k.get('kind') == 'TemplateTypeParmDecl':
+                    own.add('type-parameter-%s-%s' % (k.get('depth', 0), k.get('index', 0)))
+        for p in f.get('params', []):
+            m = re.match(r'^(type-parameter-\d+-\d+) &&(\.\.\.)?$', p.get('ct', ''))
+            if not m or m.group(1) not in own:
+                continue
+            hit = None
+            for x in tu.walk(body):
+                if _is_std_move(tu, x):
+                    for a in tu.kids(x)[1:]:
+                        if any(y.get('kind') == 'DeclRefExpr' and y.get('referencedDecl', {}).get('id') == p.get('id') for y in tu.walk(a)):
+                            hit = x
+            out.append((f, p.get('name'), 'moved' if hit is not None else 'ok', hit))
+    return out
+
+
+def check_forwarding(ctx, tu):
+    R = 'R-C09-16'
+    ctx.describe(R, 'a deduced `U &&` parameter of Optional / Any (assignment from a value, value_or, emplace, the converting constructors) is '
+                    'forwarded, never std::move()d: for an lvalue argument U is an lvalue reference, and moving from it empties the caller\'s object '
+                    '(copies are independent of their source)')
+    fns = [f for f in tu.functions.values() if f.get('rec') in (OPT, ANY) and tu.fn_file(f).startswith('rkcommon/')]
+    sites = forwarding_sites(tu, fns)
+    seen = set()
+    for f, pn, v, node in sites:
+        inst = '%s %s' % (pattern_name(tu, f), f['fty'])
+        if (inst, pn) in seen:
+            continue
+        seen.add((inst, pn))
+        if v == 'moved':
+            ctx.violation(R, inst, 'the forwarding parameter `%s` is passed to std::move: when the argument is a non-const lvalue (`opt = s;`) its '
+                          'payload is moved out, the caller\'s object is left in the moved-from state and a second wrapper assigned from the same '
+                          'object gets an empty value; std::forward<U>(%s) moves only from rvalues' % (pn, pn), tu.loc(node),
+                          key='%s|%s|%s|forwarding-parameter-moved' % (R, tu.fn_file(f), pattern_name(tu, f)))
+        else:
+            ctx.ok(R, inst, 'forwarding parameter `%s` is not std::move()d' % pn, tu.fn_loc(f))
+    ctx.floor(R, len(seen), 3, 'deduced `U &&` parameters of Optional / Any members (operator=(U &&), value_or, emplace on the pinned tree)')
+    fs = [f for f in tu.functions.values() if f['q'].startswith('rkverif::fwd_')]
+    got = {}
+    for f, pn, v, node in forwarding_sites(tu, fs):
+        got[f['q'].split('::')[-1]] = v
+    want = {'fwd_moves': 'moved', 'fwd_forwards': 'ok'}
+    if got != want:
+        ctx.broken('%s self-check: verdicts on drivers/wrappers.cpp are %s, expected %s' % (R, got, want))
+
+
+def noexcept_payload_sites(tu, fns, payload_of):
+    """(function, payload operation node, text) for every member declared unconditionally noexcept whose body - followed through members of
+    the same class template - constructs or assigns a payload object"""
+    out = []
+    for f in fns:
+        if f.get('dep') or tu.body(f) is None or not re.search(r'\bnoexcept$', f['fty'].strip()):
+            continue
+        if f['q'].split('::')[-1].startswith('~'):
+            continue
+        t = payload_of(f)
+        if t is None:
+            continue
+        norm = lambda q: re.sub(r'\bconst\b|&|\s', '', q or '')
+        seen = {f['id']}
+        work = [(f, 0)]
+        hit = None
+        while work and hit is None:
+            cur, d = work.pop()
+            for x in tu.walk(tu.body(cur)):
+                k = x.get('kind')
+                if k == 'CXXNewExpr' and norm(x.get('type', {}).get('qualType', '')).rstrip('*') == norm(t):
+                    cs = [y for y in tu.walk(x) if y.get('kind') == 'CXXConstructExpr']
+                    if cs or True:
+                        hit = (x, 'constructs a payload object (`new (storage) T(...)`)')
+                        break
+                if k in ('CXXOperatorCallExpr', 'BinaryOperator') and (tu.sd(x).get('q', '').endswith('operator=') or x.get('opcode') == '='):
+                    ks = tu.kids(x)
+                    lhs = ks[1] if k == 'CXXOperatorCallExpr' and len(ks) > 2 else ks[0]
+                    if norm(lhs.get('type', {}).get('qualType', '')) == norm(t) and k == 'CXXOperatorCallExpr':
+                        hit = (x, 'assigns a payload object (`value() = ...`)')
+                        break
+                if k in ('CXXMemberCallExpr', 'CXXConstructExpr', 'CXXOperatorCallExpr') and d < 4:
+                    cf = tu.callee_fn(x)
+                    if cf is not None and cf.get('rec') == f.get('rec') and cf['id'] not in seen and tu.body(cf) is not None:
+                        seen.add(cf['id'])
+                        work.append((cf, d + 1))
+        if hit is not None:
+            out.append((f, hit[0], hit[1]))
+    return out
+
+
+def check_noexcept_payload(ctx, tu):
+    R = 'R-C09-17'
+    ctx.describe(R, 'no Optional / Any member that constructs or assigns a payload object is declared unconditionally `noexcept`: a payload '
+                    'constructor or assignment may throw for some T, and the exception then ends in std::terminate instead of reaching the '
+                    'caller - live payloads are never destroyed (every payload constructed is destroyed exactly once, for every payload type)')
+
+    def payload_of(f):
+        ta = tu.records.get(f.get('recid'), {}).get('targs') or []
+        return ta[0].get('t') if ta and isinstance(ta[0], dict) else None
+    fns = [f for f in tu.functions.values() if f.get('rec') == OPT and tu.fn_file(f).startswith('rkcommon/')]
+    cand = [f for f in fns if not f.get('dep') and tu.body(f) is not None]
+    sites = noexcept_payload_sites(tu, fns, payload_of)
+    seen = set()
+    for f, node, what in sites:
+        name = pattern_name(tu, f)
+        if name in seen:
+            continue
+        seen.add(name)
+        ctx.violation(R, '%s %s' % (f['q'].replace('rkcommon::utility::', ''), f['fty'].replace('rkcommon::utility::', '')),
+                      'declared `noexcept` without a condition, but %s: for a payload type whose constructor / assignment throws, the exception '
+                      'cannot leave the function and std::terminate is called; the wrappers involved are never destroyed. A conditional '
+                      '`noexcept(std::is_nothrow_move_constructible<T>::value ...)` would be correct' % what, tu.loc(node),
+                      key='%s|%s|%s|noexcept-around-payload-operation' % (R, tu.fn_file(f), name))
+    nx = [f for f in cand if re.search(r'\bnoexcept$', f['fty'].strip()) and not f['q'].split('::')[-1].startswith('~')]
+    ctx.ok(R, 'Optional members', '%d instantiated member function(s) inspected, %d declared unconditionally noexcept, %d of them with a payload '
+           'construction / assignment' % (len(cand), len(nx), len(seen)), 'rkcommon/utility/Optional.h', nontrivial=bool(nx))
+    ctx.floor(R, len(cand), 20, 'instantiated Optional member functions with a body in drivers/wrappers.cpp')
+    ws = [f for f in tu.functions.values() if f.get('rec') == 'rkverif::NxSlot']
+    got = sorted(set(f['q'].split('::')[-1] for f, node, what in noexcept_payload_sites(
+        tu, ws, lambda f: (tu.records.get(f.get('recid'), {}).get('targs') or [{}])[0].get('t'))))
+    if got != ['take']:
+        ctx.broken('%s self-check: expected exactly NxSlot<T>::take to be reported on drivers/wrappers.cpp, got %s' % (R, got))
+
+
 def check_any_mirrors(ctx, tu):
     R = 'R-C09-10'
     ctx.describe(R, 'every data member of Any besides the holder (a cached type, a flag) describes the held value: each member function that '
@@ -1975,6 +2132,8 @@ def run(ctx):
     check_optional_categories(ctx, tu)
     check_optional_conversions(ctx, tu)
     check_holder_destructor(ctx, tu)
+    check_forwarding(ctx, tu)
+    check_noexcept_payload(ctx, tu)
     check_any_mirrors(ctx, tu)
     check_demangle(ctx)
     if ctx.tier == 'thorough':
